@@ -111,6 +111,51 @@ def descriptor_precondition(program, rep: Report) -> None:
                      + (f"; {len(withdrawn)} finding(s) in methods of {c.name} withdrawn" if withdrawn else ""))
 
 
+def restructure_precondition(program, rep: Report) -> None:
+    """A finding of the kind "X is not done / is missing / never happens" in a function whose call structure differs from the
+    confirmed baseline (sa/callshape.py: it calls repository-defined names it did not call on the pinned tree, or it is a new
+    function) is demoted to UNDECIDED: the rule was confirmed against the pinned call structure, and what it misses may be done by
+    the new callee in a form it does not read. Findings that positively identify a wrong construct are kept.
+    BAIZE_STRICT_ABSENCE=1 switches the demotion off."""
+    if os.environ.get("BAIZE_STRICT_ABSENCE") == "1" or not rep.violations:
+        return
+    from sa import callshape
+
+    try:
+        base = callshape.load_baseline()
+    except Exception as e:  # a missing baseline must not turn findings into silence
+        rep.undecide("engine", f"call-structure baseline unreadable: {e}")
+        return
+    cur = callshape.shape_of(program)
+    keep = []
+    from sa.report import load_known, match_known
+    known = load_known(rep.prop)
+    for v in rep.violations:
+        if match_known(known, v) is not None:
+            keep.append(v)  # a listed finding stays what it is
+            continue
+        owner = v.construct.split(" :: ")[0].split(" [entry")[0].strip()
+        owners = [owner.replace(".*.", f".{side}.") for side in ("wsgi", "asgi")] if ".*." in owner else owner.split("|") if "|" in owner and ":" in owner else [owner]
+        if "|" in owner and ":" in owner:
+            mod_, quals = owner.split(":", 1)
+            owners = [f"{mod_}:{q}" for q in quals.split("|")]
+        cands = []
+        for o in owners:
+            cands.append(o)
+            while "." in o.split(":", 1)[-1]:
+                o = o.rsplit(".", 1)[0]
+                cands.append(o)  # enclosing function / class-level owner of a nested function
+        new = []
+        for o in cands:
+            if o in cur:
+                new += [f"{o.split(':', 1)[-1]} -> {n}" for n in callshape.restructured(program, o, base, cur)]
+        if new and callshape.is_absence_finding(v.message):
+            rep.undecide(v.rule, f"[demoted: call structure differs from the confirmed baseline ({'; '.join(sorted(set(new))[:4])})] {v.where}: {v.message[:160]}")
+        else:
+            keep.append(v)
+    rep.violations[:] = keep
+
+
 def main(argv=None) -> int:
     ap = argparse.ArgumentParser()
     ap.add_argument("prop")
@@ -135,6 +180,7 @@ def main(argv=None) -> int:
         mod.run(program, rep, args.tier)
         resolver_precondition(program, rep)
         descriptor_precondition(program, rep)
+        restructure_precondition(program, rep)
         if args.tier == "thorough":
             if hasattr(mod, "run_thorough"):
                 mod.run_thorough(program, rep)
